@@ -119,7 +119,7 @@ def run_c11(run, tier, wd, binary, replay):
                        "struct fields; value, prop, custom, foreign, untagged leaves; a compile-time block with an unexported tagged field; an "
                        "embed of an unexported type) exported by TLC, plus seeded deeper shapes; non-trivial = has a struct field")
     run.assumptions += ["reflect.StructOf builds the holder types; unexported fields come from generated compile-time blocks",
-                        "leaves are string fields; wire / func / logger / prefix tags on embedded shapes are exercised by the other checks' holders"]
+                        "leaves are string fields for value / prop / prefix / custom / foreign / untagged, a pointer for wire, interfaces for func and logger"]
 
 
 def rand_shape(rng, depth=4):
@@ -127,7 +127,7 @@ def rand_shape(rng, depth=4):
     counter = [0]
     def leaf():
         counter[0] += 1
-        return dict(k="leaf", tag=rng.choice(["none", "value", "prop", "cust", "foreign", "value"]), anon=False, ptr=False, exp=True, id=counter[0], kids=[])
+        return dict(k="leaf", tag=rng.choice(["none", "value", "prop", "cust", "foreign", "value", "prefix", "wire", "func", "logger"]), anon=False, ptr=False, exp=True, id=counter[0], kids=[])
     def node(d):
         if d == 0 or rng.random() < 0.45:
             return leaf()
